@@ -1,6 +1,7 @@
 package checks
 
 import (
+	"regexp"
 	"crypto/sha1"
 	"encoding/json"
 	"fmt"
@@ -35,7 +36,55 @@ type layout struct {
 	Outs   []any                `json:"outs"`
 	Reads  []string             `json:"reads"`
 	Err    string               `json:"err"`
+	Steps  []stepLabel          `json:"steps"`
 }
+
+// stepLabel is one reported step of the resolver: load <file id>,
+// mergefile <file id>, mergedoc <document id>.
+type stepLabel struct {
+	Kind string `json:"kind"`
+	ID   string `json:"id"`
+}
+
+var reLogLine = regexp.MustCompile(`^\d{4}/\d\d/\d\d \d\d:\d\d:\d\d \[(.*)\] (loading|merging)$`)
+var reDocID = regexp.MustCompile(`^doc\d+$`)
+
+// parseSteps turns the debug log of `bkl -v` into step labels with model
+// paths (every |-separated path component is made absolute under /w).
+func parseSteps(base string, stderr []byte) []stepLabel {
+	out := []stepLabel{}
+	for _, line := range strings.Split(string(stderr), "\n") {
+		m := reLogLine.FindStringSubmatch(strings.TrimRight(line, "\r"))
+		if m == nil {
+			continue
+		}
+		comps := strings.Split(m[1], "|")
+		isDoc := len(comps) > 1 && reDocID.MatchString(comps[len(comps)-1])
+		n := len(comps)
+		if isDoc {
+			n--
+		}
+		for i := 0; i < n; i++ {
+			p := comps[i]
+			if strings.HasPrefix(p, "/") {
+				p = strings.TrimPrefix(p, base)
+			} else {
+				p = filepath.Join("/w", p)
+			}
+			comps[i] = filepath.Clean(p)
+		}
+		kind := "load"
+		if m[2] == "merging" {
+			kind = "mergefile"
+			if isDoc {
+				kind = "mergedoc"
+			}
+		}
+		out = append(out, stepLabel{kind, strings.Join(comps, "|")})
+	}
+	return out
+}
+
 
 var scratchSeq int64
 
@@ -64,7 +113,7 @@ func runLayout(r *Run, l *layout, trace bool, mutate string) (ok bool, outs []an
 	}
 	cwd := filepath.Join(base, "w")
 	os.MkdirAll(cwd, 0o755)
-	argv := []string{filepath.Join(binDir(), "bkl"), "-f", "json"}
+	argv := []string{filepath.Join(binDir(), "bkl"), "-v", "-f", "json"}
 	if l.Skip {
 		argv = append(argv, "-P")
 	}
@@ -74,6 +123,10 @@ func runLayout(r *Run, l *layout, trace bool, mutate string) (ok bool, outs []an
 	}
 	argv = append(argv, l.Inputs...)
 	res = fsx.Run(cwd, argv, nil, nil, 20*time.Second, trace)
+	res.Steps = nil
+	for _, st := range parseSteps(base, res.Stderr) {
+		res.Steps = append(res.Steps, [2]string{st.Kind, st.ID})
+	}
 	if res.TimedOut || res.Signaled || res.Panicked {
 		return false, nil, nil, res, nil
 	}
@@ -211,6 +264,15 @@ func replayLayout(r *Run, l *layout, confined bool) string {
 	}
 	if ok && !docsEqual(outs, l.Outs) {
 		return fmt.Sprintf("outputs differ: bkl printed %.300s", res.Stdout)
+	}
+	// the step log of the real program against the small-step resolver
+	if len(l.Steps) != len(res.Steps) {
+		return fmt.Sprintf("the program reported %d steps, the small-step specification takes %d: %v vs %v", len(res.Steps), len(l.Steps), res.Steps, l.Steps)
+	}
+	for i, st := range l.Steps {
+		if res.Steps[i] != [2]string{st.Kind, st.ID} {
+			return fmt.Sprintf("step %d: the program reported %v, the specification's step is %v", i, res.Steps[i], st)
+		}
 	}
 	if confined {
 		for _, p := range reads {
@@ -350,6 +412,32 @@ func randomLayout(g *gen.G) *layout {
 		}
 	}
 	l.Skip = g.P(0.15)
+	if g.P(0.15) && drop == "" {
+		// the same layout once more in two directories: independent chains with equal file names
+		two := &layout{Fs: map[string]fsx.Entry{}, Root: "/", Skip: l.Skip}
+		for _, dir := range []string{"dev", "prod"} {
+			for p, e := range l.Fs {
+				np := "/w/" + dir + strings.TrimPrefix(p, "/w")
+				if e.Kind == "file" {
+					docs := make([]tv.T, len(e.Docs))
+					for i, d := range e.Docs {
+						m := tv.ToGo(d).(map[string]any)
+						if o, ok := m["order"].([]any); ok && len(o) == 1 {
+							m["order"] = []any{dir + "/" + o[0].(string)}
+						}
+						docs[i] = tv.FromGo(m)
+					}
+					two.Fs[np] = fsx.Entry{Kind: "file", Docs: docs}
+				} else {
+					two.Fs[np] = e
+				}
+			}
+			for _, in := range l.Inputs {
+				two.Inputs = append(two.Inputs, dir+"/"+in)
+			}
+		}
+		return two
+	}
 	return l
 }
 
@@ -416,10 +504,28 @@ func hasParentCycle(all []string, parentOf map[string]any) bool {
 	return false
 }
 
+// runSession is runEvent plus the step log of the run as RBegin / RStep /
+// REnd events, validated against the small-step resolver.
+func runSession(r *Run, l *layout, trace bool) (Sess, bool) {
+	ev, steps, end, ok := runEventSteps(r, l, trace)
+	if !ok {
+		return Sess{}, false
+	}
+	lines := [][]byte{ev}
+	lines = append(lines, steps...)
+	lines = append(lines, end)
+	return Sess{Lines: lines}, true
+}
+
 func runEvent(r *Run, l *layout, trace bool) ([]byte, bool) {
+	ev, _, _, ok := runEventSteps(r, l, trace)
+	return ev, ok
+}
+
+func runEventSteps(r *Run, l *layout, trace bool) ([]byte, [][]byte, []byte, bool) {
 	ok, outs, reads, res, err := runLayout(r, l, trace, "")
 	if err == fsx.ErrUnrepresentable {
-		return nil, false
+		return nil, nil, nil, false
 	}
 	if err != nil {
 		Fatal("driver: %v", err)
@@ -450,7 +556,11 @@ func runEvent(r *Run, l *layout, trace bool) ([]byte, bool) {
 	if res.TimedOut || res.Signaled || res.Panicked {
 		ev["crashed"] = true
 	}
-	return J(ev), true
+	steps := [][]byte{J(map[string]any{"ev": "RBegin", "fs": fs, "inputs": absInputs(l), "skip": l.Skip, "root": l.Root})}
+	for _, st := range res.Steps {
+		steps = append(steps, J(map[string]any{"ev": "RStep", "kind": st[0], "id": st[1]}))
+	}
+	return J(ev), steps, J(map[string]any{"ev": "REnd", "ok": ok, "outs": outs}), true
 }
 
 func C03(r *Run) {
@@ -471,12 +581,12 @@ func C03(r *Run) {
 		go func(l *layout) {
 			defer wg.Done()
 			defer func() { <-sem }()
-			ev, ok := runEvent(r, l, false)
+			sess, ok := runSession(r, l, false)
 			if !ok {
 				return
 			}
 			mu.Lock()
-			sessions = append(sessions, Sess{Lines: [][]byte{ev}})
+			sessions = append(sessions, sess)
 			mu.Unlock()
 		}(l)
 	}
